@@ -110,6 +110,27 @@ func c03Wheres() []c03Where {
 	}
 }
 
+// c03FnKinds: every one-argument scalar function applied to an argument of
+// every kind a row can produce (text, integer, float, Boolean, list, a JSON
+// member, a number written as text): whatever it yields or refuses, it does
+// so in both iteration modes. One entry per function.
+func c03FnKinds() [][]c03Field {
+	args := []struct{ e, kind string }{
+		{"value", ""}, {"int(value)", "num"}, {"float(value)", "num"}, {"is_int(value)", ""}, {"split(value, ',')", "csv"}, {"json(value)['a']", "json"},
+		{"strlen(value) * 100", ""}, {"key + value", ""}, {"list(int(value), 2)", "num"}, {"int(value) / 2", "num"}, {"float(value) + 0.25", "num"}, {"key = 'a002'", ""},
+	}
+	var out [][]c03Field
+	for _, fn := range []string{"upper", "lower", "strlen", "str", "int", "float", "is_int", "is_float", "len", "json"} {
+		var fs []c03Field
+		for _, a := range args {
+			fs = append(fs, c03Field{fn + "(" + a.e + ")", a.kind, false})
+		}
+		fs = append(fs, c03Field{"join('-', " + fn + "(value), " + fn + "(int(value)))", "num", false}, c03Field{"list(" + fn + "(value), " + fn + "(key))", "", false})
+		out = append(out, fs)
+	}
+	return out
+}
+
 func c03Limits(b int) []string {
 	return []string{"", " limit 0, 2", " limit 1, 2", fmt.Sprintf(" limit %d, 3", b), fmt.Sprintf(" limit %d, 1", 2*b), " limit 0, 0", " limit 2",
 		fmt.Sprintf(" limit %d, 2", b+1), fmt.Sprintf(" limit %d, 2", 2*b+1),
@@ -201,6 +222,9 @@ func c03Units(t core.Tier) []c03Unit {
 	for i := range c03Aggrs() {
 		us = append(us, c03Unit{"aggr", i})
 	}
+	for i := range c03FnKinds() {
+		us = append(us, c03Unit{"fk", i})
+	}
 	return us
 }
 
@@ -290,6 +314,14 @@ func (c03) RunUnit(t core.Tier, u int, r *core.Reporter) {
 						}
 					}
 				}
+			}
+		}
+	case "fk":
+		for _, f := range c03FnKinds()[un.i] {
+			for _, b := range append(append([]int(nil), bs...), 32) {
+				run("select key, "+f.expr+" as x where true", f.kind, nil, b)
+				run("select key, "+f.expr+" as x where key > 'a001' & value != '2'", f.kind, nil, b)
+				run("select key where "+f.expr+" = "+f.expr, f.kind, nil, b)
 			}
 		}
 	case "aggr":
